@@ -6,7 +6,7 @@
 // several slots, in which the same committee index has different lengths at different slots; and
 // (families "overlap", "merged-overlap") through calls for different slots that overlap on the one
 // service, as the scheduler's per-slot jobs do.  The service is built with a process concurrency of
-// 1 to 64 (main.go passes the number of cores; above 1 in two thirds of the cases) and, in half of the
+// 1 to 64 (main.go passes the number of cores; above 1 in three quarters of the cases) and, in half of the
 // cases, the signer's latency differs from account to account (family "split-sign": both).  Prints the
 // case for Check.C04.
 package c04
@@ -71,7 +71,7 @@ func dutyVals(in Input, i int) []uint64 {
 	return vals
 }
 
-// vary chooses the process concurrency of the service (above 1 in two thirds of the cases, always
+// vary chooses the process concurrency of the service (above 1 in three quarters of the cases, always
 // when force) and, in half of the cases (always when force), per-account latencies of the signer for
 // every call that is certain to ask for an account that only it can ask for (a validator of its duty
 // alone, with an account): that account keeps Timing.Sign, the others get distinct shorter
